@@ -16,12 +16,35 @@ def ast_adts(crate):
 def stmt_list_universe(crate):
     """(adt, field) for every field of an AST node that holds a list of statements"""
     out = []
-    for p, a in ast_adts(crate).items():
+    adts = ast_adts(crate)
+    is_list = lambda ty: re.match(r"^std::vec::Vec<(rustpython_parser::)?rustpython_ast::Stmt(<.*>)?>$", ty)
+
+    def holds_lists(tname, depth=0):
+        """does AST node type `tname` (struct, or enum over payload structs) have a statement-list field?"""
+        a = adts.get(tname)
+        if a is None or depth > 2:
+            return False
+        for v in a["variants"]:
+            for f in v["fields"]:
+                if is_list(f["ty"]):
+                    return True
+                m = re.match(r"^((rustpython_parser::)?rustpython_ast::\w+)(<.*>)?$", f["ty"])
+                if a["kind"] == "enum" and m and holds_lists(m.group(1), depth + 1):
+                    return True
+        return False
+    for p, a in adts.items():
         if a["kind"] != "struct":
             continue
         for f in a["variants"][0]["fields"]:
             ty = f["ty"]
-            if re.match(r"^std::vec::Vec<(rustpython_parser::)?rustpython_ast::Stmt(<.*>)?>$", ty):
+            if is_list(ty):
+                out.append((p, f["name"]))
+                continue
+            # a list of sub-nodes that carry statement lists themselves (`Try.handlers`, `TryStar.handlers`, `Match.cases`):
+            # the visitor must enter the container of each statement kind, reading `ExceptHandler.body` for `try` says
+            # nothing about `try ... except*`
+            m = re.match(r"^std::vec::Vec<((rustpython_parser::)?rustpython_ast::\w+)(<.*>)?>$", ty)
+            if m and p.split("::")[-1].startswith("Stmt") and holds_lists(m.group(1)):
                 out.append((p, f["name"]))
     return sorted(out)
 
